@@ -11,7 +11,11 @@ _WORLD = []
 
 def get_world():
     if not _WORLD:
-        _WORLD.append(world.World())
+        w = world.World()
+        import dawgie.pl.schedule as sch  # pylint: disable=import-outside-toplevel
+
+        w.install_clock(sch)  # timer events follow the virtual reactor
+        _WORLD.append(w)
     return _WORLD[0]
 
 
@@ -20,7 +24,7 @@ def gen_case(rng, opts):
     spec = aegen.generate(
         rng,
         n_algs=n,
-        p_event=opts.get('p_event', 0.0),
+        p_event=opts.get('p_event', 0.15),
         p_feedback=opts.get('p_feedback', 0.2),
         p_analysis=opts.get('p_analysis', 0.22),
         p_regress=opts.get('p_regress', 0.1),
